@@ -95,7 +95,7 @@ def packK (c : Cache) (p : Pkt) : PK → Option (Cache × Bool)
 theorem pack_kind (k : NalConsts) (c : Cache) (p : Pkt) :
     c.pack k p = (packK c p (effKind k c.hevc c.keyRun p)).map
       (fun r => ({ r.1 with keyRun := nextRun k c.hevc c.keyRun p }, r.2)) := by
-  unfold Cache.pack effKind nextRun pktKind Cache.classify
+  unfold Cache.pack effKind nextRun pktKind Cache.classify Cache.keyFragment isKeyFragment
   by_cases hch : p.ch ≠ 0
   · simp [hch, packK]
   · simp only [hch, if_false]
@@ -264,17 +264,24 @@ theorem cacheSpec_packAll (k : NalConsts) (hevc gop : Bool) (ps : List Pkt) :
 def isSlice (k : NalConsts) (hevc : Bool) (p : Pkt) : Bool :=
   decide (pktKind k hevc p = .key ∨ pktKind k hevc p = .other)
 
-/-- the key run left by a history, without the scan: it is open exactly when the LAST slice
-    packet of the history is a key-frame slice, and then carries that packet's timestamp -/
-theorem runAfter_spec (k : NalConsts) (hevc : Bool) (ps : List Pkt) :
-    runAfter k hevc none ps =
-      (match (ps.filter (isSlice k hevc)).getLast? with
-       | some q => if pktKind k hevc q = .key then some q.ts else none
-       | none => none) := by
-  induction ps using rev_ind with
-  | h0 => simp [runAfter]
+/-- the key run left by a history is either closed or carries the timestamp of a key-frame slice
+    packet of that history (it is opened by key slices only) -/
+theorem runAfter_from_key (k : NalConsts) (hevc : Bool) (ps : List Pkt) (t : Nat)
+    (h : runAfter k hevc none ps = some t) : ∃ q ∈ ps, pktKind k hevc q = .key ∧ q.ts = t := by
+  induction ps using rev_ind generalizing t with
+  | h0 => simp [runAfter] at h
   | hs ps p ih =>
-    rw [runAfter_snoc, getLast?_filter_snoc, ih]
-    cases hk : pktKind k hevc p <;> simp [nextRun, isSlice, hk]
+    rw [runAfter_snoc] at h
+    unfold nextRun at h
+    cases hk : pktKind k hevc p <;> simp only [hk] at h
+    case key => exact ⟨p, by simp, hk, by simpa using h⟩
+    case other =>
+      split at h
+      · obtain ⟨q, hq, h1, h2⟩ := ih t h
+        exact ⟨q, by simp [hq], h1, h2⟩
+      · simp at h
+    all_goals
+      obtain ⟨q, hq, h1, h2⟩ := ih t h
+      exact ⟨q, by simp [hq], h1, h2⟩
 
 end IpcHub.Media
